@@ -174,7 +174,7 @@ def coerceConj : RawConj → Except LitErr Conj
 
 def RawSelect.coerce (s : RawSelect) : Except LitErr Select := do
   let cj ← s.conj.mapM coerceConj
-  pure ⟨s.star, s.items, s.table, cj, s.limit.getD 0⟩
+  pure ⟨s.star, s.items, s.table, cj, s.limit.getD 0, s.limit.isSome⟩
 
 /-! ### tables -/
 
@@ -204,42 +204,26 @@ def errStr : Err → String
 
 /-! ### hypotheses of the `_partial` theorems that are false for a statement -/
 
-def litExactI64 (ty : ColTy) (l : Lit) : Bool :=
-  match ty, l with
-  | .i32, .int v => wrap32 v == v
-  | .i64, .int v => wrap64 v == v
-  | .i32, .flt b => satIntLit .eq (wrap32 (f64ToI64 b)) l == some true
-  | .i64, .flt b => satIntLit .eq (f64ToI64 b) l == some true
-  | _, _ => true
+/-- the code compares an integer column with `GetValueAsInt64(literal)`: exact unless the literal is
+    a decimal with a fractional part (or outside int64) -/
+def litExactInt (l : Lit) : Bool :=
+  match l with
+  | .int _ => true
+  | .flt b => satIntLit .eq (f64ToI64 b) l == some true
 
 def conjLits : Conj → List (CmpOp × Lit)
   | .cmp _ op l => [(op, l)]
   | .between _ a b => [(.gt, a), (.lt, b)]
 
-def failedHyps (t : Option Table) (s : Select) (limit : Option Nat) : List String :=
-  let cols := s.conj.map Conj.col
-  let h1 := if cols.eraseDups.length != cols.length then ["one_predicate_per_column"] else []
-  let epochLits := (s.conj.filter (fun c => c.col == "Epoch")).flatMap conjLits
-  let h2 := if epochLits.any (fun ol => (ol.1 == .lt || ol.1 == .le) && ol.2.asI64 ≤ threshold)
-    then ["epoch_upper_bound_in_ns"] else []
-  let h3 := if epochLits.any (fun ol => convUnit (convUnit ol.2.asI64) != convUnit ol.2.asI64)
-    then ["epoch_literal_stable"] else []
-  let h4 := match t with
-    | none => []
-    | some t =>
-      let stamps := (query t.tf t.slots ⟨none, none, none⟩).map (fun r => r.sec * 1000000000)
-      if epochLits.any (fun ol => ol.1 == .le && stamps.contains ol.2.asI64) then ["epoch_inclusive_max_off_edge"] else []
-  let h56 := match t with
-    | none => []
-    | some t =>
-      let tys := s.conj.filterMap (fun c => (t.cols.find? (fun d => d.name == c.col)).map (fun d => (d.ty, c)))
-      (if tys.any (fun tc => match tc.1 with | .other _ _ => true | _ => false) then ["filterable_column_type"] else []) ++
-      (if tys.any (fun tc => (conjLits tc.2).any (fun ol => !litExactI64 tc.1 ol.2)) then ["literal_fits_column"] else [])
-  let h7 := if limit == some 0 then ["limit_nonzero"] else []
-  let h8 := if !s.star && s.items.any (fun it => match it.alias with
-      | some a => s.items.any (fun j => j.name == a)
-      | none => false) then ["alias_not_a_selected_column"] else []
-  h1 ++ h2 ++ h3 ++ h4 ++ h56 ++ h7 ++ h8
+/-- `literal_fits_column` (known finding C19-F6): a decimal literal with a fractional part on an
+    integer column.  Every other former tag belonged to a repaired finding and is gone. -/
+def failedHyps (t : Option Table) (s : Select) : List String :=
+  match t with
+  | none => []
+  | some t =>
+    let tys := s.conj.filterMap (fun c => (t.cols.find? (fun d => d.name == c.col)).map (fun d => (d.ty, c)))
+    if tys.any (fun tc => (match tc.1 with | .f32 | .f64 => false | _ => true) &&
+        (conjLits tc.2).any (fun ol => !litExactInt ol.2)) then ["literal_fits_column"] else []
 
 /-! ### model step -/
 
@@ -258,7 +242,7 @@ def xStep (bs : List Bucket) (hexText structured : String) : Option (List Bucket
     | .error .date => pure (bs, "X=err:date", [])
     | .error .unsupported => none
     | .ok s =>
-      let hy := failedHyps (findTable db s.table) s rs.limit
+      let hy := failedHyps (findTable db s.table) s
       match materializeSelect db s with
       | .error e => pure (bs, "X=" ++ errStr e, hy)
       | .ok cs => pure (bs, "X=" ++ renderCS cs, hy)
@@ -267,7 +251,7 @@ def xStep (bs : List Bucket) (hexText structured : String) : Option (List Bucket
     | .error .date => pure (bs, "X=err:date", [])
     | .error .unsupported => none
     | .ok s =>
-      let hy := failedHyps (findTable db s.table) s rs.limit
+      let hy := failedHyps (findTable db s.table) s
       match ← materializeInsert db ⟨target, aliases, s⟩ with
       | .error e => pure (bs, "X=" ++ errStr e, hy)
       | .ok (.nothing, _) => pure (bs, "X=nil", hy)
